@@ -125,6 +125,23 @@ def run(spec, ctx):
                 check_query_case(ctx, ast, [[el]], Renderer(r, plain=True).top(ast), "near", nontrivial=True)
                 ctx.cell("comparison_table", "%s|near-%s" % (spec["ops"][0], form))
                 n += 1
+        # deep equality far down: containers identical for 99..300 levels that differ only at the bottom (by a boolean/number
+        # twin, a near-equal number, a missing member), and ones that do not differ at all
+        if spec["ops"][0] in ("==", "!=", "<=", ">="):
+            def nest(leaf, depth, shape):
+                v = leaf
+                for i in range(depth):
+                    v = [v] if shape == "arrays" or (shape == "mixed" and i % 2) else {"k": v}
+                return v
+            L = ["sq", ["q", "@", [["child", [["name", "l"]]]]]]
+            R = ["sq", ["q", "@", [["child", [["name", "r"]]]]]]
+            for depth in (3, 99, 100, 101, 102, 150, 300):
+                for shape in ("arrays", "objects", "mixed"):
+                    for a, b in ((True, 1), (1, True), (False, 0), (0.0, False), (1, 1.0), (0.3, 0.30000000000000004), ("a", "a"), ([1], [1]), ({"a": 1}, {"a": 1, "b": 2}), (None, None), ([], {}), ("1", 1)):
+                        ast = ["q", "$", [["child", [["index", 0]]], ["child", [["filter", ["cmp", spec["ops"][0], L, R]]]]]]
+                        check_query_case(ctx, ast, [[{"l": nest(a, depth, shape), "r": nest(b, depth, shape)}]], Renderer(r, plain=True).top(ast), "deep-equality", nontrivial=True)
+                        n += 1
+                    ctx.cell("comparison_table", "%s|depth=%d %s" % (spec["ops"][0], depth, shape))
         ctx.count("table_cells_enumerated", n)
     elif kind == "directed":
         rr = Renderer(r, blanks=0.2)
